@@ -9,6 +9,7 @@ Static clause claimed (the one law-breaking mechanism that is structural):
   I-PRIVATE the map cannot be built or mutated from outside the module (field private, Deref without DerefMut): checked from
             the ADT/impl facts; compile-fail witnesses in /verif/witness (thorough tier)
   I-CLASS   from_asset sends each (policy present?, name present?) combination to the constructor of its own asset class
+            (when that reading reports: re-read over absent / empty / non-empty with the constructors inlined, `_class3`)
   C-ORDER   contains_total / is_empty_or_negative touch amounts only through comparisons, so their verdict for one entry
             depends only on presence and on the order type of (amount, other amount, 0): the decision procedure is extracted
             from MIR and tabulated over all order types (rules/ordering.py), then compared with the property's statement
@@ -133,6 +134,15 @@ def i_normal(F, res):
             if by is None:
                 if _zero_guarded(f, cfg, bi):
                     by = "the single entry is inserted only when its amount is non-zero"
+            # (5) one construction fed by a helper's two exits: the empty map on the zero side, the single entry on the
+            # other (`Self(single_entry(amount, class))` with the zero test inside the helper)
+            if by is None and len(origins) > 1 and all(o.kind in ("call", "agg") for o in origins):
+                news = [o for o in origins if o.kind == "call" and o.callee.endswith("HashMap::<K, V>::new")]
+                rest = [o for o in origins if o not in news]
+                nl = {o.term["dest"]["l"] for o in news}
+                touched = [s2 for bj, sj, s2 in mir.stmts(f) if s2["rv"]["k"] in ("ref", "rawptr") and s2["rv"].get("mut") and s2["rv"]["pl"]["l"] in nl]
+                if news and rest and not touched and all(o.bb is not None and _zero_guarded(f, cfg, o.bb) for o in rest):
+                    by = "fed by two exits of an inlined helper: HashMap::new() on one, an entry inserted only under the zero test on the other"
             if by:
                 res.add([ok("I-NORMAL", key, w, by)])
             else:
@@ -269,6 +279,206 @@ def _param_of_place(f, du, pl, nparams):
     return None, direct
 
 
+def _class3(F):
+    """Three-valued reading of from_asset with every constructor of the module inlined: each of (policy, name) is absent,
+    present-and-empty or present-and-non-empty; `unwrap_or(&[])` / `unwrap_or_default()` turn absent into empty, `is_empty()`
+    splits on emptiness, a discriminant read splits on presence.  The class every one of the nine combinations reaches must be
+    Defined iff the policy is non-empty, else Named iff the name is non-empty, else Naked (what the three constructors of the
+    pinned tree compute together), and the payloads must come from their own parameter.  Returns (decided, problems): anything
+    the evaluation does not model leaves the question undecided."""
+    def want(t, callee):
+        return _asset_helpers(t, callee) and callee.get("name") != "from_class_and_amount"
+    _KEEP.append(want)
+    f = mir.inline_calls(F, F.fn(CA + "::from_asset"), want=want, depth=6)
+    ALL = frozenset("AEN")
+    names = {1: "policy", 2: "name"}
+    records = []
+    undecided = []
+
+    def ev_place(env, pl):
+        v = env.get(pl["l"])
+        for q in pl["p"]:
+            if v is None:
+                return None
+            if q[0] == "d":
+                continue
+            if q[0] == "dc":
+                if v[0] == "opt":
+                    v = ("some", v[1])
+                else:
+                    return None
+            elif q[0] == "f":
+                idx = str(q[1])
+                if v[0] == "tuple" and idx.isdigit() and int(idx) < len(v[1]):
+                    v = v[1][int(idx)]
+                elif v[0] in ("some", "opt") and idx == "0":
+                    v = ("sl", "payload", v[1])
+                else:
+                    return None
+            else:
+                return None
+        return v
+
+    def ev_op(env, op):
+        pl = mir.op_place(op)
+        if pl is not None:
+            return ev_place(env, pl)
+        c = op.get("c") if op else None
+        if c is not None and c.get("ty", "").replace(" ", "") in ("&[u8;0]", "[u8;0]"):
+            return ("empty",)
+        return None
+
+    def refine(S, b, truth):
+        """narrow the states of the two parameters by `b == truth`; None = infeasible, False = not modelled"""
+        if b is None:
+            return False
+        if b[0] == "not":
+            return refine(S, b[1], not truth)
+        S = list(S)
+        if b[0] == "isempty":
+            sl = b[1]
+            if sl is None:
+                return False
+            if sl[0] == "empty":
+                return tuple(S) if truth else None
+            if sl[0] != "sl":
+                return False
+            prm = sl[2]
+            if sl[1] == "payload":
+                keep = {"E"} if truth else {"N"}
+            else:
+                keep = {"A", "E"} if truth else {"N"}
+            S[prm - 1] = S[prm - 1] & frozenset(keep)
+        elif b[0] == "present":
+            S[b[1] - 1] = S[b[1] - 1] & frozenset({"E", "N"} if truth else {"A"})
+        else:
+            return False
+        return None if not S[0] or not S[1] else tuple(S)
+
+    steps = [0]
+    stack = [(0, (ALL, ALL), {1: ("opt", 1), 2: ("opt", 2)})]
+    while stack:
+        bi, S, env = stack.pop()
+        steps[0] += 1
+        if steps[0] > 4000:
+            undecided.append("path budget exhausted")
+            break
+        b = f["blocks"][bi]
+        if b["cleanup"]:
+            continue
+        env = dict(env)
+        for s in b["s"]:
+            if s["lhs"]["p"]:
+                continue
+            rv = s["rv"]
+            k = rv["k"]
+            v = None
+            if k == "use":
+                v = ev_op(env, rv["op"])
+            elif k == "cast":
+                v = ("empty",) if rv.get("from", "").replace(" ", "") == "&[u8;0]" else ev_op(env, rv["op"])
+            elif k == "ref":
+                v = ev_place(env, rv["pl"])
+            elif k == "discr":
+                o = ev_place(env, rv["pl"])
+                v = ("present", o[1]) if o is not None and o[0] == "opt" else None
+            elif k == "unop" and rv.get("op") == "Not":
+                o = ev_op(env, rv["a"])
+                v = ("not", o) if o is not None else None
+            elif k == "agg":
+                if rv.get("adt") == "tx3_tir::model::assets::AssetClass":
+                    v = ("cls", rv.get("variant"), [ev_op(env, o) for o in rv["ops"]], s["line"])
+                elif "tuple" in rv:
+                    v = ("tuple", [ev_op(env, o) for o in rv["ops"]])
+                elif "adt" not in rv and "closure" not in rv and not rv["ops"]:
+                    v = ("empty",)
+            env[s["lhs"]["l"]] = v
+        t = b["t"]
+        if t["k"] == "call":
+            c = t.get("callee") or ""
+            last = c.split("::")[-1]
+            args = [ev_op(env, a) for a in t["args"]]
+            v = None
+            if c.startswith("std::option::Option") and last in ("unwrap_or", "unwrap_or_default") and args and args[0] is not None and args[0][0] == "opt":
+                if last == "unwrap_or_default" or (len(args) > 1 and args[1] == ("empty",)):
+                    v = ("sl", "poe", args[0][1])
+            elif c.startswith("std::option::Option") and last in ("is_some", "is_none") and args and args[0] is not None and args[0][0] == "opt":
+                v = ("present", args[0][1])
+                if last == "is_none":
+                    v = ("not", v)
+            elif last == "is_empty" and "slice" in c and args:
+                v = ("isempty", args[0])
+            elif last in ("to_vec", "to_owned", "into", "from") and args and args[0] is not None and args[0][0] in ("sl", "empty"):
+                v = ("vec", args[0])
+            elif c == CA + "::from_class_and_amount":
+                cl = args[0] if args else None
+                if cl is None or cl[0] != "cls":
+                    undecided.append("the class handed to from_class_and_amount at line %s is not built on the path" % t["line"])
+                else:
+                    records.append((S, cl))
+                continue        # the rest of the path only hands the value back
+            if t.get("dest") is not None and not t["dest"]["p"]:
+                env[t["dest"]["l"]] = v
+            if t.get("t") is not None:
+                stack.append((t["t"], S, env))
+        elif t["k"] == "switch":
+            d = ev_op(env, t["discr"])
+            if d is None:
+                undecided.append("a branch at line %s is taken on something other than the presence or emptiness of policy / name" % t["line"])
+                continue
+            vals = {v for v, _ in t["targets"]}
+            arms = [(v, tb) for v, tb in t["targets"]]
+            for v in (0, 1):
+                if v not in vals:
+                    arms.append((v, t["otherwise"]))
+            for v, tb in arms:
+                if v not in (0, 1):
+                    undecided.append("a switch at line %s has more than two values" % t["line"])
+                    continue
+                S2 = refine(S, d, v == 1)
+                if S2 is False:
+                    undecided.append("a branch at line %s is not modelled" % t["line"])
+                elif S2 is not None:
+                    stack.append((tb, S2, env))
+        elif t["k"] == "return":
+            undecided.append("a path returns without from_class_and_amount")
+        else:
+            for n in mir.block_succs(b):
+                if not f["blocks"][n]["cleanup"]:
+                    stack.append((n, S, env))
+    if undecided:
+        return False, undecided, f
+    problems = []
+    covered = set()
+
+    def src_ok(v, prm, st):
+        """does the byte vector `v` carry parameter prm's bytes when that parameter is in state st?"""
+        if v is None or v[0] != "vec":
+            return False
+        sl = v[1]
+        if sl[0] == "empty":
+            return st in ("A", "E")
+        if sl[0] == "sl" and sl[2] == prm:
+            return sl[1] == "poe" or st != "A"
+        return False
+    for S, cl in records:
+        for p_ in sorted(S[0]):
+            for n_ in sorted(S[1]):
+                covered.add((p_, n_))
+                exp = "Defined" if p_ == "N" else "Named" if n_ == "N" else "Naked"
+                word = {"A": "absent", "E": "present and empty", "N": "present and non-empty"}
+                if cl[1] != exp:
+                    problems.append((cl[3], "policy %s, name %s is classed %s (line %s) where the constructors together give %s" % (word[p_], word[n_], cl[1], cl[3], exp)))
+                elif exp == "Defined" and not (src_ok(cl[2][0], 1, p_) and src_ok(cl[2][1], 2, n_)):
+                    problems.append((cl[3], "Defined(..) at line %s does not receive (policy, name) in that order" % cl[3]))
+                elif exp == "Named" and not src_ok(cl[2][0], 2, n_):
+                    problems.append((cl[3], "Named(..) at line %s does not receive the name" % cl[3]))
+    missing = [(p_, n_) for p_ in "AEN" for n_ in "AEN" if (p_, n_) not in covered]
+    if missing:
+        return False, ["combination %s reaches no class" % (missing[0],)], f
+    return True, problems, f
+
+
 def i_class(F, res):
     """from_asset(policy, name, amount) must send each of the four presence combinations to the constructor of its own
     class - lovelace only when *both* are absent - and must test the presence of the caller's policy / name themselves (an
@@ -347,7 +557,18 @@ def i_class(F, res):
                     bad.append((line, "%s(..) is reached with %s = %s" % (c, names[prm], got or "untested (present or absent)")))
     if indirect:
         bad.append((indirect[0][0], "the presence test is not on the caller's own `%s` (a call such as Option::filter stands in between: e.g. an empty byte string is turned into an absent one)" % names[indirect[0][1]]))
+    by3 = None
     if bad:
+        # the presence reading does not fit this shape: read it over (absent, empty, non-empty) with every constructor inlined
+        decided, problems, f3 = _class3(F)
+        if decided and not problems:
+            bad = []
+            by3 = "decided over (absent, empty, non-empty) with the constructors inlined: Defined <- policy non-empty; Named <- name non-empty otherwise; Naked <- neither; payloads from their own parameter"
+        elif decided:
+            bad = [(l_, m_) for l_, m_ in problems]
+    if by3:
+        res.add([ok("I-CLASS", key, where(f), by3)])
+    elif bad:
         res.add([finding("I-CLASS", key, where(f, bad[0][0]), "; ".join(sorted({b2 for _, b2 in bad})) + ": two different asset classes are merged by the constructor, so equal-looking values built through different constructors differ and the expression round trip changes the value")])
     else:
         res.add([ok("I-CLASS", key, where(f), "naked <- (None, None); named <- (None, Some); defined <- (Some, _); tests are on the parameters themselves")])
